@@ -19,7 +19,7 @@ class C04(Prop):
             ">= 2 connections actually interleave at the tap; distinct = distinct interleaving signatures")
     reach = ["same_hosts_diff_client_port", "same_client_port_diff_server", "same_server_diff_clients", "crossed_pair_same_ports", "equal_initial_sequence_numbers", "quic_cid_begins_with_other_connections_cid",
              "resumption_shares_master_secret", "v4_v6_mixed",
-             "tls_quic_mixed", "quic_zero_len_cid", "noise", "long_key_log_line_across_block_boundary", "secrets_block_per_connection", "n_ge_4", "policy_bursty", "policy_sequential"]
+             "tls_quic_mixed", "quic_zero_len_cid", "noise", "long_key_log_line_across_block_boundary", "quic_connection_closes_while_others_run", "secrets_block_per_connection", "n_ge_4", "policy_bursty", "policy_sequential"]
 
     def plan(self, tier):
         p = super().plan(tier)
@@ -97,6 +97,30 @@ class C04(Prop):
                     c["tcp"]["isn_c"], c["tcp"]["isn_s"] = o2["tcp"]["isn_c"], o2["tcp"]["isn_s"]
                     c["same_isn"] = True
             conns.append(c)
+        if quic_ok and idx % 11 == 4:
+            # close race: three QUIC connections to one server start one after the other and run concurrently; the one
+            # created first is short and ends with CONNECTION_CLOSE while the others are still exchanging packets
+            from .. import quicpeer
+            conns = []
+            used = set()
+            qcfg = {"small": True, "v6_pct": 0, "zero_cid_pct": 20, "policy": "concurrent", "close_pct": 0, "one_way_pct": 0,
+                    "migrate_pct": 0}
+            for j in range(3):
+                kw = {}
+                if conns:
+                    kw = {"server_ip": conns[0]["s"]["ip"], "server_port": conns[0]["s"]["port"]}
+                c = quicpeer.gen_quic_conn(R.fork("race", j), j, qcfg, used, **kw)
+                c["collide"] = "server" if j else None
+                conns.append(c)
+            J = conns[0]
+            sc = [f for f in J["q"]["script"] if f.get("c")][:E.range(1, 2)]
+            if sc:
+                J["q"]["script"] = sc
+                sc[-1]["c"][0]["pk"][0]["frames"].insert(0, ["close", 0x0100 + E.below(256)])
+                sc[-1].pop("ncid_issue", None)
+                J["closes_early"] = True
+            policy = "concurrent"
+            n = 3
         # one MAC per IP address
         macs = {}
         for c in conns:
@@ -217,6 +241,8 @@ class C04(Prop):
             out.count("reach:n_ge_4")
         if spec.get("long_key_log"):
             out.count("reach:long_key_log_line_across_block_boundary")
+        if any(c.get("closes_early") for c in conns):
+            out.count("reach:quic_connection_closes_while_others_run")
         if spec.get("secrets_block_per_connection"):
             out.count("reach:secrets_block_per_connection")
         if spec.get("policy") in ("bursty", "sequential"):
